@@ -63,7 +63,7 @@ func c06R3only(c *Ctx, r *Report, rule, prefix string) {
 }
 
 func c07R12(c *Ctx, r *Report) {
-	r.rule("C07.R1", "record gate (evaluation of Match on fixed first messages, reads served from the message): a record whose type byte is not 22 answers (false, nil) after the 5 header bytes and nothing else is read or parsed; a handshake record is read and handed to the hello parser", 1)
+	r.rule("C07.R1", "record gate (evaluation of Match on fixed first messages, reads served from the message): a record whose type byte is not 22 answers (false, nil) after the 5 header bytes and nothing else is read or parsed; a handshake record - whatever record-layer version it carries - is read and handed to the hello parser", 1)
 	r.rule("C07.R2", "length-exact read: for handshake records announcing 5, 256 and 0x1234 body bytes (trailing bytes present) exactly 5 + that many bytes are consumed and exactly the body is handed to the hello parser; a body that is not complete yet answers 'need more'", 1)
 	fnName := "modules/l4tls.(*MatchTLS).Match"
 	fn := c.Fn(fnName)
@@ -94,6 +94,13 @@ func c07R12(c *Ctx, r *Report) {
 		{"handshake, 0x1234 bytes, trailing data", mk(22, 0x1234, 0x1234+3), true, 0x1234, true},
 		{"handshake, 0x0102 bytes, exact", mk(22, 0x0102, 0x0102), true, 0x0102, true},
 		{"handshake, body incomplete", mk(22, 300, 120), true, 300, false},
+	}
+	// the record-layer version of the first record is not looked at (as crypto/tls accepts any first-record version
+	// below 0x1000; RFC 5246 appendix E.1 lets old clients send {03,00}, RFC 8446 clients may send {03,04}-like values)
+	for _, ver := range [][2]byte{{3, 0}, {3, 2}, {3, 3}, {3, 4}, {2, 0}} {
+		m := mk(22, 40, 44)
+		m[1], m[2] = ver[0], ver[1]
+		cases = append(cases, tc{fmt.Sprintf("handshake, record version {%02x,%02x}", ver[0], ver[1]), m, true, 40, true})
 	}
 	var p1, p2 []string
 	for _, t := range cases {
